@@ -37,13 +37,13 @@ fn hay_needle(class: &str, hl: usize, nl: usize, rng: &mut Rng) -> (Vec<u8>, Vec
 }
 
 fn fam_findsub(cx: &mut Cx) {
-    let lens: Vec<usize> = lengths(cx).into_iter().filter(|&n| n > 0).collect();
     let nlens: Vec<usize> = if cx.thorough { vec![1, 2, 3, 4, 5, 7, 8, 9, 15, 16, 17, 18, 31, 32, 33, 34, 40, 64, 65] } else { vec![1, 2, 4, 8, 15, 16, 17, 33] };
     for (name, f, ascii) in findsub_subjects() {
         if !cx.subject(name, "find_sub", "") {
             continue;
         }
-        let mut rng = cx.rng.derive(name);
+        let lens: Vec<usize> = lengths(cx).into_iter().filter(|&n| n > 0).collect();
+            let mut rng = cx.rng.derive(name);
         let mut k = 0usize;
         for &hl in lens.iter() {
             for &nl in nlens.iter() {
@@ -133,13 +133,13 @@ fn findany_subjects() -> Vec<(&'static str, SubFn)> {
 }
 
 fn fam_findany(cx: &mut Cx) {
-    let lens: Vec<usize> = lengths(cx).into_iter().filter(|&n| n > 0).collect();
     let sizes: Vec<usize> = if cx.thorough { vec![1, 2, 3, 5, 8, 15, 16, 17, 20, 32, 33] } else { vec![1, 3, 16, 17, 33] };
     for (name, f) in findany_subjects() {
         if !cx.subject(name, "find_any", "") {
             continue;
         }
-        let mut rng = cx.rng.derive(name);
+        let lens: Vec<usize> = lengths(cx).into_iter().filter(|&n| n > 0).collect();
+            let mut rng = cx.rng.derive(name);
         let mut k = 0usize;
         for &hl in lens.iter() {
             for &sz in sizes.iter() {
